@@ -9,7 +9,11 @@ replace google.golang.org/grpc => google.golang.org/grpc v1.26.0
 replace github.com/coreos/bbolt => go.etcd.io/bbolt v1.3.5
 
 require (
+	github.com/andybalholm/brotli v1.0.3
 	github.com/golang/groupcache v0.0.0-20210331224755-41bb18bfe9da
+	github.com/golang/snappy v0.0.3
+	github.com/klauspost/compress v1.13.1
+	github.com/pierrec/lz4 v2.6.1+incompatible
 	github.com/vicanso/elton v1.4.2
 	github.com/vicanso/pike v0.0.0
 	go.uber.org/zap v1.18.1
